@@ -492,6 +492,16 @@ class Check:
             else:
                 self.discharged = []
                 self.broken_ties.append("proof: Props/%s does not check: %s" % (prop_file, pr["log"][-1500:]))
+            if self.tier == "thorough" and pr["ok"] and os.environ.get("VERIF_SKIP_COQCHK") != "1":
+                # independent re-check of the compiled property file and everything it depends on
+                try:
+                    rc, out, err = run(["coqchk", "-silent", "-o", "-Q", ".", "PV", "PV.Props." + prop_file[:-2]], cwd=COQ, timeout=3000)
+                    summary = out[out.find("CONTEXT SUMMARY"):] if "CONTEXT SUMMARY" in out else (out + err)[-800:]
+                    self.coqchk = " ".join(summary.split())
+                    if rc != 0:
+                        self.broken_ties.append("coqchk rejected Props/%s: %s" % (prop_file, (out + err)[-800:]))
+                except subprocess.TimeoutExpired:
+                    self.coqchk = "coqchk timed out"
             if need_go:
                 ok, errs = build_go()
                 self.go_ok = ok
@@ -547,6 +557,7 @@ class Check:
             "translator_digest": getattr(self, "digest", {}).get("functions", {}),
             "broken_ties": self.broken_ties,
             "notes": self.notes,
+            "coqchk": getattr(self, "coqchk", "not run in this tier (thorough only)"),
         }
         cov.update(self.cov)
         if extra_cov:
